@@ -1,5 +1,15 @@
-"""Picklable module-level targets used by the simulation harnesses."""
+"""Picklable module-level targets and value menus used by the simulation harnesses.
+
+Module globals (MARKS, STATE_LOG) are shared by all simulated "processes" (they are threads of
+one interpreter), which is what lets the harness see what happened inside a child.
+"""
 from . import sim as simmod
+
+MARKS = []
+
+
+def reset():
+    del MARKS[:]
 
 
 def _pt(label):
@@ -18,3 +28,118 @@ class Boom(Exception):
 
 def boom(x):
     raise Boom("boom", x)
+
+
+class Obj:
+    def __init__(self, v):
+        self.v = v
+
+    def __eq__(self, other):
+        return type(other) is Obj and other.v == self.v
+
+    def __hash__(self):
+        return hash(self.v)
+
+    def __repr__(self):
+        return "Obj(%r)" % (self.v,)
+
+
+class NeedsArgsError(Exception):
+    """An exception class whose constructor requires arguments that Exception.__reduce__ does not keep:
+    it pickles fine in the child and cannot be rebuilt in the parent."""
+
+    def __init__(self, a, b):
+        super().__init__("needs-args")
+        self.a, self.b = a, b
+
+
+def _unloadable():
+    raise AttributeError("Can't get attribute 'Local' on <module '__main__'> (class defined in the main script)")
+
+
+class Unloadable:
+    """Stands for a value whose class cannot be imported on the parent side."""
+
+    def __reduce__(self):
+        return (_unloadable, ())
+
+    def __eq__(self, other):
+        return type(other) is Unloadable
+
+
+class UnloadableError(Exception):
+    def __reduce__(self):
+        return (_unloadable, ())
+
+
+VALUES = [
+    ("none", lambda: None),
+    ("zero", lambda: 0),
+    ("empty-list", lambda: []),
+    ("nested", lambda: {"a": [1, (2, 3)], "b": None}),
+    ("object", lambda: Obj(3)),
+    ("exception-as-value", lambda: ValueError("x", 1)),
+    ("unloadable-value", lambda: Unloadable()),
+]
+
+EXCS = [
+    ("ValueError", lambda: ValueError("bad", 3)),
+    ("Boom", lambda: Boom("boom")),
+    ("needs-args", lambda: NeedsArgsError(1, 2)),
+    ("unloadable-exc", lambda: UnloadableError("u")),
+]
+
+TRANSFERABLE_VALUES = {"none", "zero", "empty-list", "nested", "object", "exception-as-value"}
+TRANSFERABLE_EXCS = {"ValueError", "Boom"}
+
+
+def work(ending, idx):
+    """ending: 0 return VALUES[idx] / 1 raise EXCS[idx] / 2 raise KeyboardInterrupt / 3 raise SystemExit"""
+    MARKS.append("enter")
+    try:
+        _pt("loop-1")
+        _pt("loop-2")
+        try:
+            _pt("in-try")
+        finally:
+            MARKS.append("finally")
+        _pt("after-try")
+        if ending == 0:
+            v = VALUES[idx][1]()
+            MARKS.append("return")
+            return v
+        if ending == 1:
+            MARKS.append("raise")
+            raise EXCS[idx][1]()
+        if ending == 2:
+            MARKS.append("raise")
+            raise KeyboardInterrupt()
+        MARKS.append("raise")
+        raise SystemExit(3)
+    finally:
+        MARKS.append("exit")
+
+
+def swallow(n):
+    """Uncooperative target: swallows every Exception and keeps going for n model seconds."""
+    import pyworkers.utils as utils
+    t = 0
+    while t < n:
+        try:
+            _pt("swallow")
+            utils.time.sleep(1)
+        except Exception:  # noqa
+            MARKS.append("swallowed")
+        t += 1
+    return "survived"
+
+
+def sleeper(n):
+    """Blocked in one long system call (no bytecode runs until it returns)."""
+    import pyworkers.utils as utils
+    utils.time.sleep(n)
+    return "slept"
+
+
+def ident(*a, **k):
+    return (a, tuple(sorted(k.items())))
